@@ -19,7 +19,7 @@ enum OpKind { O_APPEND = 1, O_PREPEND = 2, O_INSERT = 3, O_REMOVE = 4, O_OWNS = 
 // Op fields: d = key index. adds: a = callback id (= slot), b = before slot, c = listener kind. remove/owns: b = slot.
 //            dispatch: a = value seed, c = form (argument value categories / event-included form)
 enum { U_VARIANT = 0 };
-enum { V_COUNT = 7 };
+enum { V_COUNT = 9 };
 
 typedef Tracked<seq::T_PAY, false> Payload;
 typedef std::vector<long> Sig;
@@ -254,6 +254,65 @@ struct Cfg6
 		else d.dispatch(key(ki), v, std::move(p));
 	}
 	static Sig expected(int ki, int v, int form) { Sig g; g.push_back(form == 1 ? key(ki) : v); g.push_back(v * 5 + 2); return g; }
+	static int forms() { return 3; }
+};
+
+
+// cfg7: ExcludeEvent form with a getEvent policy that is NOT the identity on the leading argument (masks noise bits off an int id);
+// the leading argument is an int lvalue, a long (not the Event type) or an int temporary
+struct Cfg7
+{
+	typedef int Key;
+	typedef void Proto(int, Payload);
+	struct Pol
+	{
+		typedef eventpp::ArgumentPassingExcludeEvent ArgumentPassingMode;
+		static int getEvent(int raw, int, const Payload &) { faultPoint(F_CALL); return raw & 0xff; }
+	};
+	typedef eventpp::EventDispatcher<Key, Proto, Pol> D;
+	static Key key(int i) { return 40 + i; }
+	struct K0 : LBase { explicit K0(int id) : LBase(id) {} void operator() (int a, Payload p) const { Sig g; g.push_back(canon(a)); g.push_back(canon(p)); report(g); } };
+	struct K1 : LBase { explicit K1(int id) : LBase(id) {} void operator() (int a, const Payload & p) const { Sig g; g.push_back(canon(a)); g.push_back(canon(p)); report(g); } };
+	struct K2 : LBase { explicit K2(int id) : LBase(id) {} void operator() (int a, Payload p) const { Sig g; g.push_back(canon(a)); g.push_back(canon(p)); Payload stolen(std::move(p)); report(g); } };
+	static std::function<Proto> make(int kind, int cb) { return kind == 1 ? std::function<Proto>(K1(cb)) : kind == 2 ? std::function<Proto>(K2(cb)) : std::function<Proto>(K0(cb)); }
+	static void dispatch(D & d, int ki, int v, int form)
+	{
+		Payload p(2000, v * 5 + 2);
+		// the noise sometimes makes the raw id equal to ANOTHER registered key plus high bits, never to a registered key itself
+		int raw = key(ki) | ((((v % 97) + 97) % 97 + 1) << 8);
+		int a = v - 9;
+		if(form == 0) d.dispatch(raw, a, p);
+		else if(form == 1) d.dispatch((long)raw, v - 9, Payload(2000, v * 5 + 2));
+		else d.dispatch(key(ki) | ((((v % 97) + 97) % 97 + 1) << 8), a, std::move(p));
+	}
+	static Sig expected(int, int v, int) { Sig g; g.push_back(v - 9); g.push_back(v * 5 + 2); return g; }
+	static int forms() { return 3; }
+};
+
+// cfg8: the same with a std::string key: the policy strips a '#suffix'; leading argument a std::string lvalue, a temporary, or a literal
+struct Cfg8
+{
+	typedef std::string Key;
+	typedef void Proto(int, Payload);
+	struct Pol
+	{
+		typedef eventpp::ArgumentPassingExcludeEvent ArgumentPassingMode;
+		static std::string getEvent(const std::string & raw, int, const Payload &) { faultPoint(F_CALL); return raw.substr(0, raw.find('#')); }
+	};
+	typedef eventpp::EventDispatcher<Key, Proto, Pol> D;
+	static Key key(int i) { return "name-" + std::to_string(i) + std::string((size_t)i * 9, 'n'); }
+	typedef Cfg7::K0 K0; typedef Cfg7::K1 K1; typedef Cfg7::K2 K2;
+	static std::function<Proto> make(int kind, int cb) { return kind == 1 ? std::function<Proto>(K1(cb)) : kind == 2 ? std::function<Proto>(K2(cb)) : std::function<Proto>(K0(cb)); }
+	static void dispatch(D & d, int ki, int v, int form)
+	{
+		Payload p(2000, v * 5 + 2);
+		std::string raw = key(ki) + "#" + strOf(v);
+		int a = v - 9;
+		if(form == 0) d.dispatch(raw, a, p);
+		else if(form == 1) d.dispatch(key(ki) + "#t", v - 9, Payload(2000, v * 5 + 2));
+		else d.dispatch(raw.c_str(), a, std::move(p));
+	}
+	static Sig expected(int, int v, int) { Sig g; g.push_back(v - 9); g.push_back(v * 5 + 2); return g; }
 	static int forms() { return 3; }
 };
 
@@ -524,6 +583,10 @@ void runVariant4(const Plan & p, RunOut & o) { runCfg<Cfg4>(p, o); }
 void runVariant5(const Plan & p, RunOut & o) { runCfg<Cfg5>(p, o); }
 #elif SEQ_VARIANT == 6
 void runVariant6(const Plan & p, RunOut & o) { runCfg<Cfg6>(p, o); }
+#elif SEQ_VARIANT == 7
+void runVariant7(const Plan & p, RunOut & o) { runCfg<Cfg7>(p, o); }
+#elif SEQ_VARIANT == 8
+void runVariant8(const Plan & p, RunOut & o) { runCfg<Cfg8>(p, o); }
 #endif
 
 } // namespace sd
@@ -535,7 +598,7 @@ Sink * g_sink = nullptr;
 Counters counters;
 void runVariant0(const Plan &, RunOut &); void runVariant1(const Plan &, RunOut &); void runVariant2(const Plan &, RunOut &);
 void runVariant3(const Plan &, RunOut &); void runVariant4(const Plan &, RunOut &); void runVariant5(const Plan &, RunOut &);
-void runVariant6(const Plan &, RunOut &);
+void runVariant6(const Plan &, RunOut &); void runVariant7(const Plan &, RunOut &); void runVariant8(const Plan &, RunOut &);
 }
 
 namespace engine {
@@ -582,6 +645,7 @@ void execute(const Plan & plan, RunOut & out)
 	switch(v) {
 	case 0: sd::runVariant0(plan, out); break; case 1: sd::runVariant1(plan, out); break; case 2: sd::runVariant2(plan, out); break;
 	case 3: sd::runVariant3(plan, out); break; case 4: sd::runVariant4(plan, out); break; case 5: sd::runVariant5(plan, out); break;
+	case 7: sd::runVariant7(plan, out); break; case 8: sd::runVariant8(plan, out); break;
 	default: sd::runVariant6(plan, out); break;
 	}
 	++sd::counters.plans;
@@ -594,7 +658,8 @@ void execute(const Plan & plan, RunOut & out)
 std::string describe(const Plan & plan)
 {
 	static const char * vn[] = { "int key/void(int,const string&)/AutoDetect/hashed", "enum key/void(const string&,Payload)/ExcludeEvent", "string key BY VALUE/void(string,Payload)/IncludeEvent",
-		"user key with < (std::map)/void(const Key&,int)/AutoDetect", "user key with hash+== (unordered_map, colliding)/void(int,Payload)/ExcludeEvent", "getEvent policy on void(const Ev&)", "int key/explicit std::map/SingleThreading/void(int,Payload)" };
+		"user key with < (std::map)/void(const Key&,int)/AutoDetect", "user key with hash+== (unordered_map, colliding)/void(int,Payload)/ExcludeEvent", "getEvent policy on void(const Ev&)", "int key/explicit std::map/SingleThreading/void(int,Payload)",
+		"int key/ExcludeEvent/non-identity getEvent policy (masks bits)", "string key/ExcludeEvent/non-identity getEvent policy (strips suffix)" };
 	static const char * names[] = { "?", "append", "prepend", "insert", "remove", "ownsHandle", "hasAny", "forEach", "dispatch" };
 	std::ostringstream o;
 	const int v = plan.user(sd::U_VARIANT);
